@@ -46,7 +46,7 @@ def main(tier, only):
         "src/isla_formalizations/csv.py (CSV_GRAMMAR, CSV_COLNO_PROPERTY)", "src/isla_formalizations/xml_lang.py (grammar, four constraints)",
         "src/isla_formalizations/rest.py (REST_GRAMMAR, four constraints)", "src/isla_formalizations/simple_tar.py (grammar, TAR_CONSTRAINTS)",
         common.src_range("src/isla_formalizations/simple_tar.py", "tar_checksum"), common.src_range("src/isla_formalizations/tar.py", "ljust_crop_tar"), common.src_range("src/isla/evaluator.py", "evaluate"),
-        common.src_range("src/isla/solver.py", "solve")])
+        common.src_range("src/isla/solver.py", "ISLaSolver.solve")])
     quick = tier == "quick"
     D, TOP = (3, 6) if quick else (4, 16)
     P = 4 if quick else 16
